@@ -82,7 +82,7 @@ def run_case(case, rng):
         # large reward magnitudes (values in the 1e4..1e5 range) on some cases: absolute tolerances and finite
         # stand-ins for -inf only show at scale
         sp = G.random_spec(rng, fam, n_max=n_max, trap_entry=(fam == "sspneg"),
-                           reward_scale=rng.choice([1.0, 1.0, 1.0, 1.0, 1000.0, 64.0]))
+                           reward_scale=rng.choice([1.0, 1.0, 1.0, 1.0, 1000.0, 64.0, 1e7]))
     if case.index % (1571 if thorough else 157) == 3:          # (primes: the large cases spread over all shards)
         # a LARGE, well connected state space at gamma = 1 (hundreds of states, ~20 successors each): anything that
         # counts walks or multiplies adjacency matrices leaves float range here
